@@ -602,6 +602,10 @@ def case_wire(seed, out, spec):
         attrs = OrderedDict()
         for _ in range(r.randrange(1, 4)):
             attrs[r.pick(['shared', 'k1', 'service.name', 'p%d' % i, 'telemetry.sdk.name'])] = 'plug%d-%d' % (i, r.randrange(9))
+        if r.chance(0.5):
+            # a number, at either side of what the wire's 64 bit signed field holds (beyond it travels as text)
+            attrs['n%d' % i] = r.pick([7, 2 ** 63 - 1, 2 ** 63, -2 ** 63, -2 ** 63 - 1, 2 ** 64 - 1])
+            out.count('numeric_plugin_attributes')
         order = r.pick([0, 1, 2, -1, -2])    # (a negative order puts the provider ahead of the built-in ones)
         plugins.make(name, ['res'], order=order, attrs=dict(attrs))
         names.append('vf.plugins.' + name)
@@ -626,6 +630,10 @@ def case_wire(seed, out, spec):
         'second_env': second}, env=env)
     if res.get('inconclusive'):
         out.inconc('wire: ' + res['inconclusive'])
+        return
+    if res.get('unsendable'):
+        out.violation('wire:resource-not-sendable', res['unsendable'], {'env': env, 'plugins': short(pl_attrs, 500)},
+                      replay_spec(spec, seed))
         return
     if res.get('child_failed'):
         out.violation('wire:session-failed', 'agent session failed: %s' % res.get('stderr', '')[-800:],
@@ -663,7 +671,8 @@ def case_wire(seed, out, spec):
         out.count('wire_restarts')
     def wire_form(d):
         # text UTF-8 cannot carry arrives with the code point escaped
-        return {k: (v.encode('utf-8', 'backslashreplace').decode('utf-8') if isinstance(v, str) else v) for k, v in d.items()}
+        return {k: (v.encode('utf-8', 'backslashreplace').decode('utf-8') if isinstance(v, str) else
+                    (str(v) if type(v) is int and not -2 ** 63 <= v < 2 ** 63 else v)) for k, v in d.items()}
 
     for what, attrs, exp in observed:
         exp = wire_form(exp)
@@ -703,6 +712,13 @@ def child_wire(arg):
     agent = deep.start(srv.config({'PLUGINS': names, 'POLL_TIMER': 0.2}))
     try:
         if not srv.wait_polls(1):
+            # no request arrived: is it because the resource the agent holds cannot be put on the wire at all?
+            try:
+                from deep.grpc import convert_resource
+                convert_resource(agent.config.resource)
+            except BaseException as e:  # noqa
+                return {'unsendable': 'no poll reached the service; building the wire form of the resource %r raises %r' % (
+                    dict(agent.config.resource.attributes.items()), e)}
             return {'inconclusive': 'no poll within watchdog'}
         agent.task_handler  # noqa
         import time
